@@ -179,7 +179,7 @@ func VerifH_C18_limitin() {
 // Every SETTINGS frame gets exactly one ACK, and the peer's values are in
 // force afterwards: server side (handleSettings) and client side.
 //
-//verif:harness prop=C18 unwind=16
+//verif:harness prop=C18,C07 unwind=16
 func VerifH_C18_ack() {
 	st := &Settings{}
 	st.Reset()
@@ -190,6 +190,12 @@ func VerifH_C18_ack() {
 	st.hasWindowSize = vBool()
 	if vBool() {
 		sc := vNewServerConn()
+		if vBool() {
+			// an earlier SETTINGS frame has been applied already
+			sc.clientS.Reset()
+			sc.clientS.tableSize, sc.clientS.frameSize, sc.clientS.maxStreams = vU32(), vU32(), vU32()
+			sc.enc.SetMaxTableSize(sc.clientS.tableSize)
+		}
 		sc.handleSettings(st)
 		frames := vDrainWriter(sc)
 		vAssert(len(frames) == 1, "C18.ack.server.exactly-one")
@@ -204,6 +210,9 @@ func VerifH_C18_ack() {
 		c := vNewConn()
 		c.openStreams = int32(vU32())
 		vAssume(c.openStreams >= 0)
+		// whatever earlier SETTINGS frames left behind
+		c.maxFrameSize, c.maxStreams, c.encTableSize = vU32(), vU32(), vU32()
+		c.streamWindow = int32(vU32())
 		c.handleSettings(st)
 		frames := vDrainOut(c)
 		vAssert(len(frames) == 1, "C18.ack.client.exactly-one")
